@@ -34,7 +34,11 @@ def observe(cx, tier, seed, impl=None):
                                               (False, cx.nM, cx.properties, cx.objects, ctx.extension)):
         arglists = [list(t) for t in gen.subsets(n, limit, r)]
         if n > 1000:
-            arglists = [[], [0], [n - 1], list(range(n)), list(range(2900, n)), sorted(r.sample(range(n), 6))]
+            # single members and sparse sets: the scan jumps over the unset positions, so these are cheap, and the result
+            # is sensitive to an index that is off by one (dense sets cost minutes inside Coq and intersect to nothing)
+            arglists = ([[], [0], [n - 1], list(range(0, n, 97)), sorted(r.sample(range(n), 6))]
+                        + [[k] for k in range(2950, 2975)] + [[k, k + 7] for k in (2955, 2957, 2958, 2960)]
+                        + [[k] for k in sorted(r.sample(range(1000, n), 12))])
         extra = []
         for t in arglists[:: max(1, len(arglists) // 6)]:
             if t:
@@ -77,7 +81,7 @@ def as_str_if_chars(labs):
 def cases(tier, seed):
     ctxs = util.contexts_for(tier, seed, exh_thorough=10, rnd_quick=200, rnd_thorough=1500)
     # thorough tier: beyond 3000 members on one side (where a float logarithm of a power of two is no longer exact;
-    # about 7 minutes of evaluation inside Coq for each of the two tables)
+    # about 4 minutes of evaluation inside Coq for each of the two tables: building the 3 200-bit columns bit by bit)
     n = 3200
     if tier == 'thorough':
         ctxs.append(gen.Ctx([(g * 7 + 3) % 15 + 1 for g in range(n)], 4, 'huge:3200x4', gen.label_scheme(0)))
